@@ -1,6 +1,7 @@
 package main
 
 import (
+	"bytes"
 	"crypto/sha1"
 	"encoding/hex"
 	"errors"
@@ -116,7 +117,16 @@ type corpusItem struct {
 	Format string
 	Schema []byte
 	Input  []byte
+	Ext    map[string]string // external properties of the run (part of what the result is a function of)
 	sch    omniparser.Schema
+}
+
+// runItem transforms an item's input (or the same bytes through another reader) with the item's external properties
+func runItem(it *corpusItem, r io.Reader) RunOutcome {
+	if r == nil {
+		r = bytes.NewReader(it.Input)
+	}
+	return runTranscript(it.sch, r, RunOpts{MaxReads: 100000, Ext: it.Ext})
 }
 
 func withEncoding(schema []byte, enc string) []byte {
